@@ -83,7 +83,9 @@ def h_compressed(ctx):
     image = [0xEE] * pad + chdr + comp + [0xEE] * 2
     elf = _Elf(ctx, ctx.stream(image), cls, little)
     ctx.use_zlib_model([(comp, plain)] if cfg.get('valid', True) else [])
-    sec = SEC.Section(_shdr(sh_flags=0x800 | ctx.uint('otherflags', 8) & 0x7, sh_offset=pad, sh_size=csz + len(comp), sh_addralign=ctx.uint('align', 8)), '.z', elf)
+    # SHF_COMPRESSED is legal on any section type that has file contents (e.g. SHT_MIPS_DWARF for MIPS debug sections, notes, user types)
+    stype = ctx.choice('sh_type', ['SHT_PROGBITS', 'SHT_NOTE', 'SHT_MIPS_DWARF', 0x80000001, 'SHT_INIT_ARRAY'])
+    sec = SEC.Section(_shdr(sh_type=stype, sh_flags=0x800 | ctx.uint('otherflags', 8) & 0x7, sh_offset=pad, sh_size=csz + len(comp), sh_addralign=ctx.uint('align', 8)), '.z', elf)
     ctx.check('compressed/flag', bool(sec.compressed))
     ctx.check_eq('compressed/data_size', sec.data_size, want['ch_size'])
     ctx.check_eq('compressed/data_alignment', sec.data_alignment, want['ch_addralign'])
